@@ -355,6 +355,25 @@ func (s C14) Apply(env world.Env, mm mc.Model, ev string) mc.Step {
 	return st
 }
 
+// c14LapseEnum: fixed histories in which the prover leaves the file through the reward block, not through a report.
+func c14LapseEnum(size int64) mc.Enum {
+	sc := C14{Size: size, Min: 2, Rejoin: true}
+	nb := rep("NextBlock", 200)
+	var paths [][]string
+	for _, kind := range []string{"Report", "Attest"} {
+		req := "RepReq:U:V"
+		if kind == "Attest" {
+			req = "AttReq:V"
+		}
+		for _, second := range []string{"Q3", "Q4", "Q2"} {
+			for _, third := range []string{"Q3", "Q4", "Q2"} {
+				paths = append(paths, cat([]string{req, kind + ":Q2:V"}, nb, []string{kind + ":" + second + ":V", "Rejoin:V", kind + ":" + third + ":V", kind + ":Q2:V", kind + ":Q4:V"}))
+			}
+		}
+	}
+	return pathEnum("C14", fmt.Sprintf("C14/lapse-paths-size%d", size), sc, paths)
+}
+
 // (4,2): one more than the three eligible providers, but not more than all active ones (the prover and its sister node included)
 var c14Settings = [][2]int64{{1, 1}, {2, 1}, {2, 2}, {3, 2}, {3, 3}, {3, 0}, {4, 2}}
 
@@ -366,6 +385,8 @@ func init() {
 	regScenario(C14{Size: 2, Min: 2, Extra: true})
 	regScenario(C14{Size: 2, Min: 2, Rejoin: true})
 	regScenario(C14{Size: 3, Min: 2, Rejoin: true})
+	CaseReplayers["C14/lapse-paths-size2"] = func(r *mc.Run, c string) { r.ReplayCase(c14LapseEnum(2), c) }
+	CaseReplayers["C14/lapse-paths-size3"] = func(r *mc.Run, c string) { r.ReplayCase(c14LapseEnum(3), c) }
 	Props["C14"] = Prop{Level: "model_checking", Run: func(r *mc.Run, tier string) {
 		r.Rules = append(r.Rules, "for each (form size, minimum) in {(1,1),(2,1),(2,2),(3,2),(3,3),(3,0),(4,2)}: BFS over request-attestation, request-report, Attest and Report by every account in {same-domain provider, 3 eligible providers, registered provider without proofs, the prover itself, unregistered proof holder} incl. repeats and never-requested forms, NextBlock (changes the shuffle); reference = set of distinct named signers per form")
 		r.Assumptions = append(r.Assumptions, "7 signers, one file, forms created at up to 3 heights", strings.TrimSpace("whether a reached quorum completes the form is counted, not enforced (the statement demands safety only)"))
@@ -378,6 +399,9 @@ func init() {
 		r.Rules = append(r.Rules, "rejoin variant for (2,2) and (3,2): the prover, reported off the file, claims it again with a fresh proof while forms about it are still open; a signature repeated after the quorum of distinct named signers exists may complete the form, nothing else may")
 		r.AddExplore(C14{Size: 2, Min: 2, Rejoin: true}, opts(tier, 13, 18, 30, 600, 30, 300))
 		r.AddExplore(C14{Size: 3, Min: 2, Rejoin: true}, opts(tier, 13, 18, 30, 600, 30, 300))
+		r.Rules = append(r.Rules, "lapse paths (rejoin variant, (2,2) and (3,2)): forms about the prover collect one signature, nobody proves for 200 blocks (the reward block drops every prover), a second named provider signs while the prover is off the file, the prover claims the file again, and named providers sign once more - every step judged by the same oracle")
+		r.AddEnum(c14LapseEnum(2), workers(), time.Time{})
+		r.AddEnum(c14LapseEnum(3), workers(), time.Time{})
 	}}
 	_ = sdk.ZeroInt
 }
